@@ -188,9 +188,18 @@ def stepSync (cas obs : String) : String :=
     -- and never leaves the client; the model describes the fake's behaviour (the retry succeeds), so this variant is judged on
     -- the real code only: the failure is reported, nothing panics, the caches stay untouched
     if (cas.splitOn "@conflictrest").length > 1 then
+      -- did the faulted call happen at all (an earlier fault of the same plan may have ended the sync before it)?
+      let fs := ((cas.splitOn "|").getD 18 "").splitOn ";"
+      let restHit : Bool := (List.range fs.length).any (fun k =>
+        match (fs.getD k "").splitOn "@" with
+        | [key, occ, "conflictrest"] =>
+          -- the first entry for a (call, occurrence) is the one the harness applies
+          !((fs.take k).any (fun g => match g.splitOn "@" with | [k2, o2, _] => k2 == key && o2 == occ | _ => false)) &&
+          ((csv (fieldD obs' "log") ",").filter (· == key)).length > occ.toNat!
+        | _ => false)
       let mon := verdict [
         ("C15.nopanic", fieldD obs' "out" != "panic"),
-        ("C09.reported", fieldD obs' "out" == "err"),
+        ("C09.reported", !restHit || fieldD obs' "out" == "err"),
         ("C10.cache", fieldD obs' "mut" != "1")]
       s!"{obs'}\t{mon}\trestclient" else
     let unappliable (d : String) : Bool := d == "R" || d == "S"
